@@ -79,7 +79,7 @@ func ruleC06Fold(c *Ctx) {
 		}
 		c.hold("C06.fold", key, call.Pos(), "filter = Combine(filter, <new>) on field "+fieldOfAddr(target).String())
 	}
-	c.floor("C06.fold", 6, "sites that extend a reference filter")
+	c.floor("C06.fold", 2, "sites that extend a reference filter")
 }
 
 func (c *Ctx) combinerName(call *ssa.Call) string {
@@ -938,6 +938,32 @@ func ruleC06Flex(c *Ctx) {
 		okGuard := strFact(b, "strings.HasPrefix", "/") && strFact(b, "strings.HasSuffix", "/") && lenFact(b, 2)
 		_ = isRest
 		okSlice := isInner(call.Call.Args[0])
+		// `inner, ok := CutPrefix(s, "/")` then `pattern, ok := CutSuffix(inner, "/")`:
+		// both found ⇒ s starts and ends with distinct slashes and pattern is what
+		// lies between them
+		cutOK := func(ex *ssa.Extract, fn string, on func(ssa.Value) bool) bool {
+			cc, isCall := ex.Tuple.(*ssa.Call)
+			if !isCall || ex.Index != 0 || calleeQ(&cc.Call) != fn || !on(cc.Call.Args[0]) {
+				return false
+			}
+			if l, isL := constStr(cc.Call.Args[1]); !isL || l != "/" {
+				return false
+			}
+			return guardedBy(b, func(cond ssa.Value, truth bool) bool {
+				e1, isE := cond.(*ssa.Extract)
+				return isE && truth && e1.Index == 1 && e1.Tuple == ex.Tuple
+			})
+		}
+		if ex, isEx := c.resolve(call.Call.Args[0]).(*ssa.Extract); isEx {
+			for _, order := range [][2]string{{"strings.CutSuffix", "strings.CutPrefix"}, {"strings.CutPrefix", "strings.CutSuffix"}} {
+				if cutOK(ex, order[0], func(v ssa.Value) bool {
+					in, isIn := c.resolve(v).(*ssa.Extract)
+					return isIn && cutOK(in, order[1], func(w ssa.Value) bool { return c.resolve(w) == ssa.Value(s) })
+				}) {
+					okGuard, okSlice = true, true
+				}
+			}
+		}
 		switch {
 		case !okGuard:
 			c.violate("C06.flex", "regexp:guard", call.Pos(), name, "the /REGEXP/ branch is not guarded by HasPrefix(s,\"/\") ∧ HasSuffix(s,\"/\") ∧ len(s) >= 2 (a lone \"/\" would slice out of range or be taken as a regexp)")
